@@ -105,6 +105,23 @@ fn run(req: &str) -> Outcome {
                     break;
                 }
             }
+            // "However often the resolution runs": a resolution must not leave anything behind that a
+            // later resolution of ANOTHER room picks up. The same history with every user consistently
+            // renamed (another creator, other members; same servers, same event IDs) is resolved in
+            // this process right after the original, then the original again: the renamed room must
+            // resolve to the renamed state map and the original to what it resolved to before.
+            {
+                let ren = sc.rename_users();
+                let want = sr::show_state_renamed(&sr::run_resolve(&rules, &store, &sc.state_maps(), sc.chain_sets()));
+                let got = sr::show_state(&sr::run_resolve(&rules, &ren.store(), &ren.state_maps(), ren.chain_sets()));
+                if got != want {
+                    o.t3.push(format!("the same history with users renamed (creator included), resolved after the original in the same process, does not resolve to the renamed state map: {} vs {}", &got[..got.len().min(400)], &want[..want.len().min(400)]));
+                }
+                let again = sr::show_state(&sr::run_resolve(&rules, &store, &sc.state_maps(), sc.chain_sets()));
+                if again != first {
+                    o.t3.push(format!("resolving the same inputs again after another room was resolved in between gave a different state map: {} vs {}", &again[..again.len().min(400)], &first[..first.len().min(400)]));
+                }
+            }
             // a single state set, and n identical ones, resolve to that set
             for (idx, set) in sc.state_maps().iter().enumerate() {
                 let want = sr::show_state(&Ok(set.clone()));
@@ -159,6 +176,9 @@ fn gen(rng: &mut Rng, n: usize, tier: &str) -> Vec<Req> {
     for ver in [6u32, 11] {
         let sc = sr::f4_witness(ver);
         out.push(Req::new(format!("c06.resolve {reps} {ver} {} {}", rng.below(8), sc.payload()), "f4witness"));
+    }
+    for sc in sr::early_creator_cells() {
+        out.push(Req::new(format!("c06.resolve {reps} {} {} {}", sc.ver, rng.below(8), sc.payload()), "earlycreator"));
     }
     for i in 0..n / 2 {
         let wild = i % 4 == 3;
